@@ -15,14 +15,14 @@ from .glue_rep import ListGeomArray, OUT, offs_of, rep_of, vals_of, well_formed
 from .glue_polygon import is_null, validity_ok
 from .c14_measures import AO, AV, AT, length_spec, area_spec, measure_spec
 from .c01_box import fmin, fmax
+from .c01_lines import LINE_MEETS, MLINE_MEETS
 
 INT = 'spatialpandas/geometry/_algorithms/intersection.py'
 R = z3.RealSort()
 I = z3.IntSort()
 
-# element-level verdicts of the drivers (uninterpreted; box already ordered low..high)
-LINE_MEETS = z3.Function('LINE_MEETS', AV, I, I, R, R, R, R, z3.BoolSort())
-MLINE_MEETS = z3.Function('MLINE_MEETS', AV, AO, I, I, R, R, R, R, z3.BoolSort())
+# element-level verdicts of the polygon drivers (uninterpreted; box already ordered low..high); the line and
+# multiline drivers are proved against the defined point-set predicates LINE_MEETS / MLINE_MEETS (c01_lines)
 POLY_MEETS = z3.Function('POLY_MEETS', AV, AO, I, I, R, R, R, R, z3.BoolSort())
 MPOLY_MEETS = z3.Function('MPOLY_MEETS', AV, AO, AO, I, I, R, R, R, R, z3.BoolSort())
 
@@ -37,22 +37,6 @@ def register(reg):
     U32 = Arr('int', 'uint32')
 
     # ------------------------------------------------------------ assumed driver contracts (stand-in: rtc C01)
-    def starts_ok(c):
-        n = c.start_offsets.n if c.has('start_offsets') else c.start_offsets0.n
-        return n
-
-    reg.add(Contract(INT + '::lines_intersect_bounds',
-                     BOXP + [('flat_values', Arr('float', finite=True)), ('start_offsets', U32), ('stop_offsets', U32),
-                             ('result', Arr('bool'))],
-                     requires=lambda c: [('lengths', And(c.stop_offsets.n == c.start_offsets.n, c.result.n == c.start_offsets.n))],
-                     ensures=lambda c, r: [('cells', forall('int', lambda k: Implies(
-                         And(k >= 0, k < c.start_offsets.n),
-                         c.post.result[k] == SBool(LINE_MEETS(c.flat_values.A, (c.flat_values.off + c.start_offsets[k]).z(),
-                                                              (c.flat_values.off + c.stop_offsets[k]).z(), *box_of(c))))))],
-                     modifies=('result',), trusted=True,
-                     note='(driver: element verdict LINE_MEETS is what the run-time checked C01 contract compares with the '
-                          'exact oracle)'))
-
     def two_level(target, FN):
         reg.add(Contract(target,
                          BOXP + [('flat_values', Arr('float', finite=True)), ('start_offsets0', U32), ('stop_offsets0', U32),
@@ -63,8 +47,8 @@ def register(reg):
                              And(k >= 0, k < c.start_offsets0.n),
                              c.post.result[k] == SBool(FN(c.flat_values.A, c.offsets1.A, (c.offsets1.off + c.start_offsets0[k]).z(),
                                                           (c.offsets1.off + c.stop_offsets0[k]).z(), *box_of(c))))))],
-                         modifies=('result',), trusted=True, note='(driver: see lines_intersect_bounds)'))
-    two_level(INT + '::multilines_intersect_bounds', MLINE_MEETS)
+                         modifies=('result',), trusted=True,
+                         note='(driver: the element verdict is what the run-time checked C01 contract compares with the exact oracle)'))
     two_level(INT + '::polygons_intersect_bounds', POLY_MEETS)
 
     reg.add(Contract(INT + '::multipolygons_intersect_bounds',
@@ -110,11 +94,18 @@ def register(reg):
             return [('length', r.n == n), ('row-k-is-the-verdict-for-element-inds-k', forall('int', lambda k: Implies(And(k >= 0, k < n), row(k))))]
 
         reg.add(Contract(target, params, returns=Arr('bool'), requires=req, ensures=ens, configs=cfgs,
-                         props=('C01', 'C16')))
+                         props=('C01', 'C16'), fuel=0))
+
+    def positive(bx):
+        return z3.And(bx[0] < bx[2], bx[1] < bx[3])
 
     def v_line(c, v, offs, slot, bx):
         o = offs[0]
-        return LINE_MEETS(v.A, (v.off + o[slot]).z(), (v.off + o[slot + 1]).z(), *bx)
+        return z3.And(positive(bx), LINE_MEETS.f(v.A, (v.off + o[slot]).z(), (v.off + o[slot + 1]).z(), *bx))
+
+    def v_mline(c, v, offs, slot, bx):
+        o0, o1 = offs
+        return z3.And(positive(bx), MLINE_MEETS.f(v.A, v.off.z(), o1.A, (o1.off + o0[slot]).z(), (o1.off + o0[slot + 1]).z(), *bx))
 
     def v_two(FN):
         def f(c, v, offs, slot, bx):
@@ -137,7 +128,7 @@ def register(reg):
     G = 'spatialpandas/geometry/'
     ib_contract(G + 'multipoint.py::MultiPointArray.intersects_bounds', 'MultiPointArray', 1, v_mpoint)
     ib_contract(G + 'line.py::LineArray.intersects_bounds', 'LineArray', 1, v_line)
-    ib_contract(G + 'multiline.py::MultiLineArray.intersects_bounds', 'MultiLineArray', 2, v_two(MLINE_MEETS))
+    ib_contract(G + 'multiline.py::MultiLineArray.intersects_bounds', 'MultiLineArray', 2, v_mline)
     ib_contract(G + 'polygon.py::PolygonArray.intersects_bounds', 'PolygonArray', 2, v_two(POLY_MEETS))
     ib_contract(G + 'multipolygon.py::MultiPolygonArray.intersects_bounds', 'MultiPolygonArray', 3, v_mpoly)
 
